@@ -32,6 +32,9 @@ def forms(a, b, t, rng):
         u = ub[rng.below(len(ub))]["name"]
         out.append(PG.P_unit(a, b.module, u, "new"))
         out.append(PG.P_unit(a, b.module, u, "get"))
+        # the other seven unit-taking methods (roundings, format_args, into_format_args): two per pair, seed-chosen
+        for f in rng.sample(list(PG.UNIT_FORMS[2:]), 2):
+            out.append(PG.P_unit(a, b.module, u, f))
     return out
 
 
@@ -62,7 +65,7 @@ def generate(t, rng, quick):
         r = rng.fork(am + bm)
         progs += forms(a, b, t, r)
         if am != bm and r.below(4) == 0:
-            progs += forms(a, a, t, r)[:12]      # positive controls: the same forms on matching types
+            progs += forms(a, a, t, r)           # positive controls: the same forms on matching types
     # same alias, different base-unit sets (compiles with autoconvert, rejected without)
     for q in rng.fork("mix").sample(qts, 12):
         qk = PG.QT(q.dims, q.kind, 1, q.module, q.alias)
@@ -103,7 +106,7 @@ def run(ctx):
     cov["rustc"] = stats
     cov["rustc_without_autoconvert"] = stats2
     cov["rule"] = ("ordered pairs of distinct (dimension, kind) classes of the SI (each x 8 seed-chosen others; all special-kind quantities pairwise and against their "
-                   "default-kind twins; thorough: all pairs) x forms {+ - % += -= %= == < partial_cmp, let-binding, hypot, atan2, From, Into, new/get with the other "
+                   "default-kind twins; thorough: all pairs) x forms {+ - % += -= %= == < partial_cmp, let-binding, hypot, atan2, From, Into, new/get/floor/ceil/round/trunc/fract/format_args/into_format_args with the other "
                    "quantity's unit}, positive controls on matching types, same alias over two base-unit sets, sqrt/cbrt/neg and number conversions of every quantity; "
                    "with and without autoconvert; non-trivial = predicted to be rejected; rustc verdict per function from JSON diagnostics (sentinel-guarded shards)")
     cov["samples"] = [{"program": programs[i].rust_fn(f"p{i}"), "model": str(mv.get(i)), "rustc": str(rv.get(i))} for i in ctx.rng.fork("s").sample(list(range(len(programs))), 5)]
